@@ -802,6 +802,17 @@ func ruleC13Lock(r *Run, p *Program, rule string) {
 			"createLockFile returns success right after flock without re-validating, after the flock, that the path still names the locked inode: Unlock removes the path before closing, so an opener that opened before the owner's unlink and locked after its close holds a lock on an unlinked file while the next opener creates and locks a new one (two holders)")
 	}
 	r.universe(rule, n, 1)
+	// the 'already existed' flag returned with the lock describes the attempt that acquired it: it is not carried over
+	// from an earlier turn of the retry loop (an opener that starts over after the owner's clean unlink creates a fresh
+	// lock file; reporting 'existed' for it makes Open run recovery on a cleanly closed database)
+	for _, ret := range returnsOf(f) {
+		if isFailureReturn(f, ret) || len(ret.Results) != 3 {
+			continue
+		}
+		r.check(!loopCarried(ret.Results[1], map[ssa.Value]bool{}), rule, "fs.createLockFile[unix]:existed-fresh", p.Pos(instrPos(ret)),
+			"the 'already existed' flag is computed in the attempt that acquires the lock",
+			"the 'already existed' flag returned with the lock can come from an earlier turn of the retry loop: after starting over (the owner unlinked the file between this opener's open and flock) the opener creates a new lock file but still reports that it existed, and Open moves the metadata aside and replays the log of a database that was closed cleanly")
+	}
 	// a failed flock does not leak success and maps EWOULDBLOCK to ErrExist
 	// Unlock order: remove the path, then close (the re-validation depends on it)
 	if u := p.Fn("(*fs.osLockFile).Unlock"); r.anchor(rule, "(*fs.osLockFile).Unlock", u != nil) {
